@@ -225,3 +225,199 @@ Example C13_run_options_act :
   run_shapes BAlg (rwith_disable_or true base_rcfg) thr0 g_reftie_1 /\
   rO4_dom base_rcfg.
 Proof. repeat split; try (vm_compute; discriminate). left. reflexivity. Qed.
+
+(** ** The options at the level of the TEXT (Proofs/TextOptions.v).
+
+    [render_slines] is the ShExC serialiser with the structure of every line kept:
+    [LCode code trail] = the line [code ++ trail ++ "\n"], [trail] empty or blanks followed
+    by a ["# ..."] comment (frequency of a constraint, instance count of a shape);
+    [LNote text] = a whole-line comment.  [flat] / [flat_text] give the bytes back.
+    [uncomment] drops every [LNote] and empties every trail; [skeleton] forgets what the
+    comment segments say and keeps where they are.  [run_slines] is [run_shexc] with the
+    structure kept. *)
+From Shexer Require Import Proofs.TextOptions.
+
+(** the structured serialiser IS the serialiser: same lines, byte for byte, same failures,
+    for every configuration and shape list *)
+Theorem C13_text_lines_structure : forall z l,
+  render_lines z l = option_map (map flat) (render_slines z l) /\
+  render z l = option_map flat_text (render_slines z l).
+Proof. intros. split; [apply render_lines_flat | apply render_flat]. Qed.
+Print Assumptions C13_text_lines_structure.
+
+Theorem C13_run_shexc_structure : forall fa c (thr : F fa) g,
+  run_shexc fa c thr g = map_res flat_text (run_slines fa c thr g).
+Proof. exact run_shexc_flat. Qed.
+Print Assumptions C13_run_shexc_structure.
+
+(** O1 [disable_comments], text: rendering the comment-free shapes with [disable_comments]
+    gives the document rendered with comments, every comment removed -- whole-line comments
+    gone, trailing comments cut, every code part and every other line untouched; the two
+    renderings fail together.  ([z'] renders tokens like [z]; its report mode is free.) *)
+Theorem C13_text_disable_comments : forall z z' l,
+  same_tokens z z' -> z_disable_comments z' = true ->
+  render_slines z' (map_shapes drop_comments l) = option_map uncomment (render_slines z l) /\
+  render z' (map_shapes drop_comments l) = option_map (fun sl => flat_text (uncomment sl)) (render_slines z l) /\
+  render z l = option_map flat_text (render_slines z l).
+Proof.
+  intros z z' l Ht Hd. split; [now apply render_slines_disable_comments | now apply text_disable_comments].
+Qed.
+Print Assumptions C13_text_disable_comments.
+
+(** ... combined with [C13_run_disable_comments]: the TEXT of the run with
+    [disable_comments=True] is the text of the run with [disable_comments=False] with every
+    comment removed; the two runs fail together, with the same error *)
+Theorem C13_run_shexc_disable_comments : forall fa c (thr : F fa) g,
+  run_slines fa (rwith_disable_comments true c) thr g =
+    map_res uncomment (run_slines fa (rwith_disable_comments false c) thr g) /\
+  run_shexc fa (rwith_disable_comments true c) thr g =
+    map_res (fun sl => flat_text (uncomment sl)) (run_slines fa (rwith_disable_comments false c) thr g) /\
+  run_shexc fa (rwith_disable_comments false c) thr g =
+    map_res flat_text (run_slines fa (rwith_disable_comments false c) thr g).
+Proof.
+  intros. split; [apply run_slines_disable_comments | apply run_shexc_disable_comments].
+Qed.
+Print Assumptions C13_run_shexc_disable_comments.
+
+(** O6 [instances_report_mode], text: two renderings of the same shapes that render tokens
+    alike (report mode and [disable_comments] free) have the same lines, the same code on
+    every line, whole-line comments at the same places: they differ only INSIDE comment
+    segments.  At run level the shapes are the same ([C13_instances_report_mode]). *)
+Theorem C13_text_report_mode_structure : forall z1 z2 l,
+  same_tokens z1 z2 ->
+  option_map skeleton (render_slines z1 l) = option_map skeleton (render_slines z2 l).
+Proof. exact render_slines_skeleton. Qed.
+Print Assumptions C13_text_report_mode_structure.
+
+Theorem C13_run_shexc_report_mode_structure : forall fa m c (thr : F fa) g,
+  map_res skeleton (run_slines fa (with_mode m c) thr g) = map_res skeleton (run_slines fa c thr g).
+Proof. exact run_slines_report_mode. Qed.
+Print Assumptions C13_run_shexc_report_mode_structure.
+
+(** with comments disabled the report mode is invisible: the two texts are EQUAL *)
+Theorem C13_run_shexc_report_mode_no_comments : forall fa m c (thr : F fa) g,
+  run_shexc fa (with_mode m (rwith_disable_comments true c)) thr g =
+  run_shexc fa (rwith_disable_comments true c) thr g.
+Proof. exact run_shexc_report_mode_no_comments. Qed.
+Print Assumptions C13_run_shexc_report_mode_no_comments.
+
+(** *** the same on BYTES.  [code_lines t] is a comment stripper defined on the raw text (cut
+    at newlines; the comment of a line starts at the first '#' outside an IRI reference
+    [<...>]; trailing blanks go; a comment-only line disappears).  [scannable sl] (decidable,
+    evaluated on the rendered document; a PREMISE, not derived from the graph): no token holds
+    a newline or a '#' outside [<...>], every [<] is closed, comment segments start with '#'. *)
+Theorem C13_code_lines_read_structure : forall sl,
+  scannable sl = true ->
+  code_lines (flat_text sl) = map line_code (uncomment sl) ++ [[]] /\
+  code_lines (flat_text (uncomment sl)) = code_lines (flat_text sl).
+Proof. intros sl H. split; [now apply code_lines_flat | now apply code_lines_uncomment]. Qed.
+Print Assumptions C13_code_lines_read_structure.
+
+Theorem C13_run_shexc_disable_comments_bytes : forall fa c (thr : F fa) g sl,
+  run_slines fa (rwith_disable_comments false c) thr g = inl sl -> scannable sl = true ->
+  exists t t', run_shexc fa (rwith_disable_comments false c) thr g = inl t /\
+               run_shexc fa (rwith_disable_comments true c) thr g = inl t' /\
+               t = flat_text sl /\ t' = flat_text (uncomment sl) /\
+               code_lines t' = code_lines t.
+Proof. exact run_shexc_disable_comments_bytes. Qed.
+Print Assumptions C13_run_shexc_disable_comments_bytes.
+
+Theorem C13_run_shexc_report_mode_bytes : forall fa m c (thr : F fa) g sl1 sl2,
+  run_slines fa (with_mode m c) thr g = inl sl1 -> run_slines fa c thr g = inl sl2 ->
+  scannable sl1 = true -> scannable sl2 = true ->
+  exists t1 t2, run_shexc fa (with_mode m c) thr g = inl t1 /\ run_shexc fa c thr g = inl t2 /\
+                code_lines t1 = code_lines t2.
+Proof. exact run_shexc_report_mode_bytes. Qed.
+Print Assumptions C13_run_shexc_report_mode_bytes.
+
+(** non-vacuity on [g_opts] (IRIs with '#' inside [<...>], trailing and whole-line comments):
+    the documents are scannable, the options change the text, the code lines agree *)
+Definition sl_of (c : rcfg) : list sline :=
+  match run_slines BAlg c thr0 g_opts with inl sl => sl | inr _ => [] end.
+Definition text_of (c : rcfg) : str :=
+  match run_shexc BAlg c thr0 g_opts with inl t => t | inr _ => [] end.
+
+Example C13_text_options_act :
+  (exists sl, run_slines BAlg (rwith_disable_comments false base_rcfg) thr0 g_opts = inl sl /\
+              scannable sl = true /\ existsb (fun l => match l with LNote _ => true | _ => false end) sl = true) /\
+  scannable (sl_of (with_mode FAbs base_rcfg)) = true /\
+  scannable (sl_of (with_mode FRatio base_rcfg)) = true /\
+  text_of (rwith_disable_comments true base_rcfg) <> text_of (rwith_disable_comments false base_rcfg) /\
+  text_of (with_mode FAbs base_rcfg) <> text_of base_rcfg /\
+  text_of (with_mode FRatio base_rcfg) <> text_of base_rcfg /\
+  code_lines (text_of (rwith_disable_comments true base_rcfg)) = code_lines (text_of base_rcfg) /\
+  code_lines (text_of (with_mode FAbs base_rcfg)) = code_lines (text_of base_rcfg) /\
+  List.length (code_lines (text_of base_rcfg)) = 11%nat.
+Proof.
+  split; [eexists; split; [vm_compute; reflexivity | split; vm_compute; reflexivity]|].
+  split; [vm_compute; reflexivity|]. split; [vm_compute; reflexivity|].
+  split; [vm_compute; discriminate|]. split; [vm_compute; discriminate|]. split; [vm_compute; discriminate|].
+  split; [vm_compute; reflexivity|]. split; vm_compute; reflexivity.
+Qed.
+
+(** *** the same through the SPEC lexer of ShExC ([Spec/ShexcGrammar.v], written for C05 from
+    the ShEx 2.1 grammar; it skips blanks and comments).  On C05's domain -- a condition on the
+    namespaces and the shapes the serialiser receives, not on the text -- both runs succeed and
+    their texts are the SAME token stream: [disable_comments] and [instances_report_mode]
+    change comments only, never the schema the document denotes. *)
+From Shexer Require Model.C05Dom Spec.ShexcGrammar.
+
+Theorem C13_text_lex_disable_comments : forall fa c (thr : F fa) g ns shapes,
+  run_shapes fa (rwith_disable_comments false c) thr g = inl (ns, shapes) ->
+  C05Dom.C05_dom (sercfg_of (rwith_disable_comments false c) ns) shapes = true ->
+  exists t t', run_shexc fa (rwith_disable_comments false c) thr g = inl t /\
+               run_shexc fa (rwith_disable_comments true c) thr g = inl t' /\
+               ShexcGrammar.lex t = ShexcGrammar.lex t' /\ ShexcGrammar.lex t <> None.
+Proof. exact run_shexc_lex_disable_comments. Qed.
+Print Assumptions C13_text_lex_disable_comments.
+
+Theorem C13_text_lex_report_mode : forall fa m c (thr : F fa) g ns shapes,
+  run_shapes fa c thr g = inl (ns, shapes) -> C05Dom.C05_dom (sercfg_of c ns) shapes = true ->
+  exists t1 t2, run_shexc fa (with_mode m c) thr g = inl t1 /\ run_shexc fa c thr g = inl t2 /\
+                ShexcGrammar.lex t1 = ShexcGrammar.lex t2 /\ ShexcGrammar.lex t1 <> None.
+Proof. exact run_shexc_lex_report_mode. Qed.
+Print Assumptions C13_text_lex_report_mode.
+
+Example C13_text_lex_inhabited :
+  exists ns shapes, run_shapes BAlg base_rcfg thr0 g_opts = inl (ns, shapes) /\
+                    C05Dom.C05_dom (sercfg_of base_rcfg ns) shapes = true /\
+                    ShexcGrammar.lex (text_of base_rcfg) = ShexcGrammar.lex (text_of (rwith_disable_comments true base_rcfg)) /\
+                    ShexcGrammar.lex (text_of base_rcfg) <> None.
+Proof.
+  eexists _, _. split; [vm_compute; reflexivity|]. split; [vm_compute; reflexivity|].
+  split; [vm_compute; reflexivity | vm_compute; discriminate].
+Qed.
+
+(** *** [namespaces_dict], text.  Under two dictionaries (each leaving a priority prefix free for
+    the shapes namespace: both runs succeed) the documents spell IRIs differently and declare
+    different prefixes.  [expand_text] acts on the Spec lexer's token stream: it drops the
+    leading PREFIX directives and replaces every prefixed name by the IRI it denotes under the
+    document's OWN declarations.  On C05's domain for both runs the two expanded streams are
+    EQUAL: the two texts state the same constraints. *)
+Theorem C13_text_namespaces : forall fa ns' c (thr : F fa) g ns1 l1 ns2 l2,
+  run_shapes fa (with_rns ns' c) thr g = inl (ns1, l1) -> run_shapes fa c thr g = inl (ns2, l2) ->
+  C05Dom.C05_dom (sercfg_of (with_rns ns' c) ns1) l1 = true -> C05Dom.C05_dom (sercfg_of c ns2) l2 = true ->
+  exists t1 t2 ts1 ts2, run_shexc fa (with_rns ns' c) thr g = inl t1 /\ run_shexc fa c thr g = inl t2 /\
+                        ShexcGrammar.lex t1 = Some ts1 /\ ShexcGrammar.lex t2 = Some ts2 /\
+                        expand_text ts1 = expand_text ts2.
+Proof. exact run_shexc_lex_namespaces. Qed.
+Print Assumptions C13_text_namespaces.
+
+Definition ns_user : nsdict := [(Str "http://ex.org/", Str "ex"); (Str "http://www.w3.org/2001/XMLSchema#", Str "xsd")].
+
+Example C13_text_namespaces_acts :
+  (exists ns1 l1 ns2 l2,
+     run_shapes BAlg (with_rns ns_user base_rcfg) thr0 g_opts = inl (ns1, l1) /\
+     run_shapes BAlg base_rcfg thr0 g_opts = inl (ns2, l2) /\
+     C05Dom.C05_dom (sercfg_of (with_rns ns_user base_rcfg) ns1) l1 = true /\
+     C05Dom.C05_dom (sercfg_of base_rcfg ns2) l2 = true) /\
+  ShexcGrammar.lex (text_of (with_rns ns_user base_rcfg)) <> ShexcGrammar.lex (text_of base_rcfg) /\
+  option_map expand_text (ShexcGrammar.lex (text_of (with_rns ns_user base_rcfg))) =
+  option_map expand_text (ShexcGrammar.lex (text_of base_rcfg)) /\
+  ShexcGrammar.lex (text_of base_rcfg) <> None.
+Proof.
+  split.
+  - eexists _, _, _, _. split; [vm_compute; reflexivity|]. split; [vm_compute; reflexivity|].
+    split; vm_compute; reflexivity.
+  - split; [vm_compute; discriminate|]. split; [vm_compute; reflexivity | vm_compute; discriminate].
+Qed.
